@@ -396,6 +396,9 @@ func (w *Writer) WriteThrough(p []byte) (n int, err error) {
 	for _, x := range w.extensions {
 		frame.Header, err = x.SetBits(frame.Header)
 		if err != nil {
+			// Keep the error as flushFragment() does, so that Write()
+			// stops instead of retrying the same bytes forever.
+			w.err = err
 			return 0, err
 		}
 	}
